@@ -24,7 +24,7 @@ def lex_path(p): return [(t[0], t[1]) for t in tokenize(p)]
 def key(t): return (t[0], t[1]) if t[0] in ("i", "p") else t
 def normalise(toks, st):
     """erase the tokens governed by the switches"""
-    pats = [("<alloc>", lex_path("::" + "::".join(st.alloc_root()))), ("<compact>", lex_path(st.get("compact_path"))), ("<bits>", lex_path(st.get("bits_path")))]
+    pats = [("<alloc>", lex_path((st.get("alloc") or "::std").strip())), ("<compact>", lex_path(st.get("compact_path"))), ("<bits>", lex_path(st.get("bits_path")))]
     root = st.root()
     out = []; i = 0; n = len(toks)
     while i < n:
@@ -90,13 +90,29 @@ def clause_problems(reg, st, toks):
         if st.has("codec_attrs") and it["kind"] == "enum":
             for ev in it["variants"]:
                 if ev["name"] != "__Ignore" and codec_attr(ev["attrs"], "index") is None: probs.append("variant %s::%s lacks its codec index" % ("::".join(t["path"]), ev["name"]))
-    # heap paths rooted at the alloc path
-    a = st.alloc_root()
+        # every compact field carries its marker with codec attributes on (and only those)
+        first = next(j for j, u in enumerate(reg) if u["path"] == t["path"])
+        if st.has("codec_attrs") and first == i:
+            def pairs():
+                if t["def"][0] == "composite": yield "", t["def"][1], (it["fields"] if it["kind"] == "struct" else [])
+                else:
+                    for v in t["def"][1]:
+                        ev = next((x for x in it.get("variants", []) if x["name"] == v["name"]), None)
+                        if ev is not None: yield "::" + v["name"], v["fields"], ev["fields"]
+            for where, rf, gf in pairs():
+                rf = [f for f in rf if reg[f["ty"]]["path"] != ["PhantomData"]]
+                gf = [f for f in gf if f["name"] != "__ignore" and not (f["ty"][0] == "path" and f["ty"][2][-1] == "PhantomData")]
+                if len(rf) != len(gf): continue
+                for k, (r_, g_) in enumerate(zip(rf, gf)):
+                    want = reg[r_["ty"]]["def"][0] == "compact"; got = codec_attr(g_["attrs"], "compact") is not None
+                    if want != got: probs.append("field %s of %s%s: registry type is %scompact but the #[codec(compact)] marker is %s" % (r_["name"] or k, "::".join(t["path"]), where, "" if want else "not ", "present" if got else "missing"))
+    # heap paths rooted at the alloc path, written exactly as configured (leading `::` or not)
+    a = st.alloc_root(); lead = (st.get("alloc") or "::std").strip().startswith("::")
     for p, it in items.items():
         for ty in types_in_item(it):
             for x in walk_type(ty):
-                if x[0] == "path" and x[1] and x[2][-1] in ("Vec", "String", "Box", "BTreeMap", "BTreeSet", "BinaryHeap", "VecDeque", "LinkedList", "Cow") and tuple(x[2][:len(a)]) != a:
-                    probs.append("heap path %s is not rooted at the alloc crate path %s" % ("::".join(x[2]), "::".join(a)))
+                if x[0] == "path" and x[2][-1] in ("Vec", "String", "Box", "BTreeMap", "BTreeSet", "BinaryHeap", "VecDeque", "LinkedList", "Cow") and x[2][0] != st.root() and (tuple(x[2][:len(a)]) != a or bool(x[1]) != lead):
+                    probs.append("heap path %s%s is not rooted at the alloc crate path %s" % ("::" if x[1] else "", "::".join(x[2]), st.get("alloc") or "::std"))
     return probs
 
 def make_family(name, reg0):
@@ -161,8 +177,35 @@ def root_family(name, reg0, roots):
         return res
     return Family(name, mk, run, target_prefixes=1)
 
+ALLOC_FORMS = ["alloc crate::alloc", "alloc alloc", "alloc self::x::alloc", "alloc ::alloc", "alloc ::my::a::b", "alloc std_"]
+def alloc_family(name, reg0):
+    """custom alloc crate paths of every written form (with and without a leading `::`, one or several segments): the
+    heap paths are rooted at the path exactly as configured, and nothing else changes"""
+    def mk(eng): return eng.choose([(a, True) for a in ALLOC_FORMS]), eng.choose([(c, True) for c in (0, 1)])
+    def run(eng, ctx):
+        al, codec = ctx
+        res = {"violations": [], "outcome": "Ok"}
+        rest = ([] if codec else ["codec_attrs"]) + [SW["compact"][0], SW["bits"][0]]
+        base = None
+        for st in (Settings(rest), Settings([al] + rest)):
+            out, _, _ = generate(eng, regdsl._clone(reg0), st)
+            case = replay_gen_case(reg0, st)
+            if out["result"] != "Ok": res["outcome"] = "Err:" + out["err"][0]; return res
+            for p in clause_problems(reg0, st, out["tokens"]):
+                res["violations"].append({"what": "%s [settings %s]" % (p, st.d), "case": case, "kind": "clause"})
+            nf = plain_tok_str(normalise(out["tokens"], st))
+            if base is None: base = (nf, st, case)
+            elif nf != base[0]:
+                k = next((j for j in range(min(len(nf), len(base[0]))) if nf[j] != base[0][j]), 0)
+                res["violations"].append({"what": "switches are not orthogonal: output under %s differs from output under %s beyond the governed tokens: ...%s... vs ...%s..." % (st.d, base[1].d, nf[max(0, k-60):k+60], base[0][max(0, k-60):k+60]),
+                                          "case": case, "case2": base[2], "kind": "orthogonal"})
+            else: res["validate"] = dict(case, expect={"result": "Ok", "tokens": plain_tok_str(out["tokens"])})
+        return res
+    return Family(name, mk, run, target_prefixes=1)
+
 def families(eng, tier, seed):
     C = corpus(); fams = []
+    for n in (("collections", "containers", "rec") if tier == "quick" else [k for k in C if len(C[k]) <= 40]): fams.append(alloc_family("allocforms-" + n, C[n]))
     for n in (("enum", "modules", "generics") if tier == "quick" else [k for k in C if len(C[k]) <= 40]):
         r = C[n]; segs = []
         for t in r:
